@@ -90,7 +90,10 @@ theorem tok_dollar {k rest : Bytes} (hk : varOk k = true) (hr : WordEnd rest) :
 
 theorem tok_key (ns : Bool) {k rest : Bytes} (hk : keyOk k = true) (hr : WordEnd rest) :
     TokOk (if ns then ⟨.tQuestionDotIdent, [63, 46] ++ k⟩ else ⟨.tDotIdent, [46] ++ k⟩) rest := by
-  obtain ⟨c, r, rfl, hc, hall⟩ := keyOk_parts hk
+  rcases keyOk_parts hk with rfl | ⟨c, r, rfl, hc, hall⟩
+  · cases ns
+    · simpa using TokOk.dot0 rest hr
+    · simpa using TokOk.qdot0 rest hr
   cases ns
   · have := TokOk.dot c r rest hall hr
     rw [hc] at this
